@@ -232,7 +232,7 @@ func (c *Ctx) structSort(t types.Type, u *types.Struct) string {
 			name += fmt.Sprintf("_%x", hashStr(t.String()))
 		}
 	}
-	if prev, ok := c.structOf[name]; ok && prev != u {
+	if prev, ok := c.structOf[name]; ok && prev != u && !types.Identical(prev, u) {
 		name += fmt.Sprintf("_%x", hashStr(t.String()))
 	}
 	if c.sortSeen[name] {
